@@ -277,10 +277,12 @@ class Evaluator:
                 return ListV(b.order, {}, {}) if e.attr == "shape" else Other(count=b.order)
             if e.attr in ("shape", "ndim", "size", "dtype"):
                 return Other()
-            if e.attr == "T":
+            if e.attr in ("T", "real", "imag", "H", "mT", "mH", "flat", "data"):
                 return b
             if isinstance(b, tuple) and b[0] == "obj":
                 return b[1].get(e.attr, Other())
+            if isinstance(b, Deg) and b.v not in ({}, ZERO) and not isinstance(b.v, Top):
+                return Deg(Top(f"attribute `.{e.attr}` of an array"))  # not modelled: cannot decide
             return Other()
         if isinstance(e, ast.Subscript):
             b = self.ev(e.value, env)
@@ -389,6 +391,11 @@ class Evaluator:
             if isinstance(a, Deg) or isinstance(b, Deg):
                 return Deg(unify(degree_of(a), degree_of(b), "conditional"))
             return a
+        if isinstance(e, ast.Dict):
+            vals = [self.ev(v, env) for v in e.values if v is not None]
+            if any(isinstance(v, (Deg, ListV)) and degree_of(v) not in ({}, ZERO) for v in vals):
+                return Deg(Top("a dict display holding arrays"))  # not modelled: cannot decide
+            return Other()
         if isinstance(e, (ast.ListComp, ast.GeneratorExp)):
             return self.comprehension(e, env)
         if isinstance(e, ast.Call):
@@ -616,6 +623,20 @@ class Evaluator:
         args = [self.ev(a, env) for a in c.args if not isinstance(a, ast.Starred)]
         kws = {k.arg: self.ev(k.value, env) for k in c.keywords if k.arg}
         ct = self.repo.resolve_call(self.f, self.f.module, c)
+        if isinstance(c.func, ast.Attribute) and ct.kind != "repo" and not (isinstance(c.func.value, ast.Name) and c.func.value.id not in env):
+            # x.dot(y), x.reshape(...), x.conj(): a method of an array -- the receiver is the first operand
+            recv = self.ev(c.func.value, env)
+            if isinstance(recv, Deg) and not (name in SAME_PRIMS and not args):
+                if name in ("astype", "copy", "clone", "detach", "cpu", "numpy", "to", "item", "flatten", "ravel", "squeeze", "conjugate", "cumsum", "tolist", "view", "contiguous", "type"):
+                    return Deg(recv.v)
+                args = [recv] + args
+        if name in ("float", "int", "complex") and len(args) == 1 and isinstance(args[0], Deg):
+            return Deg(args[0].v)  # a 0-d array turned into a Python number keeps its unit
+        if name in ("max", "min") and len([a for a in args if isinstance(a, Deg)]) >= 2:
+            t = ZERO
+            for a in args:
+                t = unify(t, degree_of(a), name)
+            return Deg(t)
         # list-sum primitives by specification
         if name in LIST_SUM_PRIMS and (ct.kind == "repo" or ct.kind == "backend"):
             lst_p, skip_p, extra = LIST_SUM_PRIMS[name]
